@@ -2,7 +2,7 @@
 
 import numpy as np
 
-OCC_CLASSES = ["closed", "rohf", "fractional", "aminusb", "aminusb_neg", "aminusb_zero", "none", "empty"]
+OCC_CLASSES = ["closed", "rohf", "nearint", "fractional", "aminusb", "aminusb_neg", "aminusb_zero", "none", "empty"]
 
 
 def documented_spin_occupations(occs, occs_aminusb):
@@ -15,6 +15,17 @@ def documented_spin_occupations(occs, occs_aminusb):
         a = np.clip(occs, 0, 1)
         return a, occs - a
     return occs / 2, occs / 2
+
+
+def admissible_spin_occupations(occs, occs_aminusb):
+    """All alpha/beta splittings the documentation admits: for occupations that are integers only up to noise (< 1e-6, e.g.
+    natural occupations out of a diagonalisation) it does not say whether they count as integers, so both rules are admitted."""
+    occs = np.asarray(occs, dtype=float)
+    first = documented_spin_occupations(occs, occs_aminusb)
+    if occs_aminusb is not None or (occs == np.round(occs)).all() or not (np.abs(occs - np.round(occs)) < 1e-6).all():
+        return [first]
+    a = np.clip(occs, 0, 1)
+    return [first, (a, occs - a)]
 
 
 def restricted_occupations(rng, norb, occ_class):
@@ -32,6 +43,13 @@ def restricted_occupations(rng, norb, occ_class):
         occs = np.zeros(norb)
         occs[:nd] = 2.0
         occs[nd:nd + ns] = 1.0
+        return occs, None
+    if occ_class == "nearint":
+        occs, _ = restricted_occupations(rng, norb, "rohf")
+        noise = rng.choice([1e-9, -3e-10, 2e-13, 0.0], size=norb)
+        occs = np.abs(occs + noise)
+        if norb and (occs == np.round(occs)).all():
+            occs[0] += 1e-9
         return occs, None
     if occ_class == "fractional":
         occs = np.sort(rng.uniform(0.0, 2.0, size=norb))[::-1].copy()
